@@ -349,6 +349,7 @@ Record frame := {
   f_vars : vars;
   f_globals : vars;
   f_bound : list (bytes * nat);     (* block name -> index of the frame that froze it *)
+  f_depth : nat;                    (* state.depth: height of the stack of executing templates *)
 }.
 
 Record xstate := {
@@ -358,11 +359,11 @@ Record xstate := {
 }.
 
 Definition cur (s : xstate) : frame :=
-  match rev (x_frames s) with f :: _ => f | [] => {| f_vars := []; f_globals := []; f_bound := [] |} end.
+  match rev (x_frames s) with f :: _ => f | [] => {| f_vars := []; f_globals := []; f_bound := []; f_depth := 0 |} end.
 Definition set_cur (s : xstate) (f : frame) : xstate :=
   {| x_frames := removelast (x_frames s) ++ [f]; x_heap := x_heap s; x_out := x_out s |}.
 Definition set_vars (s : xstate) (vs : vars) : xstate :=
-  let c := cur s in set_cur s {| f_vars := vs; f_globals := f_globals c; f_bound := f_bound c |}.
+  let c := cur s in set_cur s {| f_vars := vs; f_globals := f_globals c; f_bound := f_bound c; f_depth := f_depth c |}.
 Definition set_heap (s : xstate) (h : heap) : xstate :=
   {| x_frames := x_frames s; x_heap := h; x_out := x_out s |}.
 Definition emit (s : xstate) (b : bytes) : xstate :=
@@ -383,21 +384,23 @@ Definition print_text (h : heap) (v : val) : res bytes :=
 
 Definition while_cap : nat := 100 * 100.     (* "max iteration of 10000 in while loop" *)
 
-Fixpoint find_last_bound (l : list (bytes * nat)) (name : bytes) (i : nat) : option (nat * nat) :=
-  (* position and frame of the last entry with that name *)
+(* walkTemplate: the latest binding of that name made by a frame above the executing one
+   (scope.depth < s.depth); frames: the live frame list, the scope's depth is read through it *)
+Fixpoint find_last_bound (frames : list frame) (depth : nat) (l : list (bytes * nat)) (name : bytes)
+  : option nat :=
   match l with
   | [] => None
   | (k, fr) :: r =>
-    match find_last_bound r name (S i) with
+    match find_last_bound frames depth r name with
     | Some x => Some x
-    | None => if beqb k name then Some (i, fr) else None
+    | None =>
+      if beqb k name then
+        match nth_error frames fr with
+        | Some sc => if Nat.ltb (f_depth sc) depth then Some fr else None
+        | None => None
+        end
+      else None
     end
-  end.
-Fixpoint remove_nth {A} (l : list A) (n : nat) : list A :=
-  match l, n with
-  | [], _ => []
-  | _ :: r, O => r
-  | x :: r, S k => x :: remove_nth r k
   end.
 
 Definition lookup_def (defs : list (bytes * list tnode)) (name : bytes) : option (list tnode) :=
@@ -405,6 +408,97 @@ Definition lookup_def (defs : list (bytes * list tnode)) (name : bytes) : option
 
 Definition set_decl (vs : vars) (decl : list bytes) (v : val) : vars :=
   fold_left (fun acc x => var_set acc x v) decl vs.
+
+(* walkRange up to the point where the body starts: evaluate the pipeline, set the declared variables,
+   decide what is iterated *)
+Inductive rplan :=
+| RElse (s : xstate)                              (* nothing to iterate: the else list *)
+| RIter (s : xstate) (pairs : list (val * val))   (* (index/key, element) in iteration order *)
+| RWhile (s : xstate) (v : val)                   (* range <true>: while loop *)
+| RDone (s : xstate).                             (* range <false>; ordered map without members *)
+
+Definition range_plan (dot : val) (s : xstate) (p : tpipe) : res rplan :=
+  let '(decl, cmds) := p in
+  (* declared variables are pushed first, then the pipeline sets them to the collection *)
+  let s0 := set_vars s (f_vars (cur s) ++ map (fun x => (x, VInvalid)) decl) in
+  do x <- eval_pipeline (env_of s0 dot) (x_heap s0) (decl, cmds);
+  let '(v, h1) := x in
+  let s1 := set_heap s0 h1 in
+  let s2 := set_vars s1 (set_decl (f_vars (cur s1)) decl v) in
+  let iter_list (pairs : list (val * val)) : rplan :=
+    match pairs with [] => RElse s2 | _ => RIter s2 pairs end in
+  match v with
+  | VArr l =>
+    match hget h1 l with
+    | Some (OArr items) =>
+      Ok (iter_list (combine (map (fun i => VInt (Z.of_nat i)) (seq 0 (length items))) items))
+    | _ => Unmod
+    end
+  | VMap l =>
+    match hget h1 l with
+    | Some (OMap items order) =>
+      match order with
+      | [] => Ok (iter_list (map (fun k => (VGoStr k, member_lookup items k)) (sort_bytes (keys items))))
+      | _ =>
+        (* ordered map: no else branch even when nothing is iterated *)
+        Ok (match map (fun k => (VGoStr k, member_lookup items k)) (filter (fun k => mem k (keys items)) order) with
+            | [] => RDone s2
+            | pairs => RIter s2 pairs
+            end)
+      end
+    | _ => Unmod
+    end
+  | VNil | VInvalid => Ok (RElse s2)
+  | VBool b | VGoBool b => Ok (if b then RWhile s2 v else RDone s2)
+  | VAttrs _ | VMod _ => Unmod
+  | _ => Panic
+  end.
+
+(* walkTemplate up to the point where the callee starts: resolve the name, evaluate the argument,
+   choose the callee frame; None = the template does not exist (nothing happens) *)
+Definition template_plan (defs : list (bytes * list tnode)) (dot : val) (s : xstate)
+           (name : bytes) (is_var : bool) (arg : option tpipe)
+  : res (option (list tnode * val * xstate)) :=
+  let c := cur s in
+  let target : res (option bytes) :=
+    if is_var then
+      match var_val (f_vars c) name with
+      | VStr t | VGoStr t => Ok (Some t)
+      | VNil | VInvalid => Ok None
+      | _ => Unmod
+      end
+    else Ok (Some name) in
+  do tn <- target;
+  match tn with
+  | None => Ok None
+  | Some tname =>
+    match lookup_def defs tname with
+    | None => Ok None
+    | Some body =>
+      do x <- (match arg with
+               | Some p => eval_pipeline (env_of s dot) (x_heap s) p
+               | None => Ok (VInvalid, x_heap s)
+               end);
+      let '(newdot, h1) := x in
+      let s1 := set_heap s h1 in
+      let s1' := match arg with
+                 | Some p => set_vars s1 (set_decl (f_vars (cur s1)) (fst p) newdot)
+                 | None => s1 end in
+      let c1 := cur s1' in
+      let callee :=
+        match find_last_bound (x_frames s1') (f_depth c1) (f_bound c1) tname with
+        | Some fr =>
+          (* the block content runs in a copy of the frame that bound it (at that frame's depth);
+             the binding stays, so a mixin can place its block more than once *)
+          nth fr (x_frames s1') c1
+        | None =>
+          {| f_vars := f_globals c1; f_globals := f_globals c1; f_bound := f_bound c1;
+             f_depth := S (f_depth c1) |}
+        end in
+      Ok (Some (body, newdot,
+                {| x_frames := x_frames s1' ++ [callee]; x_heap := x_heap s1'; x_out := x_out s1' |}))
+    end
+  end.
 
 Section Exec.
   Variable defs : list (bytes * list tnode).
@@ -429,7 +523,8 @@ Section Exec.
         if beqb fz (B "__freeze") then
           let c := cur s in
           Ok (set_cur s {| f_vars := f_vars c; f_globals := f_globals c;
-                           f_bound := f_bound c ++ [(bn, pred (length (x_frames s)))] |})
+                           f_bound := f_bound c ++ [(bn, pred (length (x_frames s)))];
+                           f_depth := f_depth c |})
         else
           do x <- eval_pipeline (env_of s dot) (x_heap s) ([], [[AIdent fz; AStr bn]]);
           let '(v, h1) := x in do t <- print_text h1 v; Ok (emit (set_heap s h1) t)
@@ -448,85 +543,21 @@ Section Exec.
         let s2 := set_vars s1 (set_decl (f_vars (cur s1)) (fst p) v) in
         do t <- truthy h1 v;
         exec_nodes f dot s2 (if t then th else el)
-      | NRange (decl, cmds) body el =>
-        (* declared variables are pushed first, then the pipeline sets them to the collection *)
-        let s0 := set_vars s (f_vars (cur s) ++ map (fun x => (x, VInvalid)) decl) in
-        do x <- eval_pipeline (env_of s0 dot) (x_heap s0) (decl, cmds);
-        let '(v, h1) := x in
-        let s1 := set_heap s0 h1 in
-        let s2 := set_vars s1 (set_decl (f_vars (cur s1)) decl v) in
-        let iter_list (pairs : list (val * val)) : res xstate :=
-          match pairs with
-          | [] => exec_nodes f dot s2 el
-          | _ => exec_iter f s2 decl body pairs
-          end in
-        match v with
-        | VArr l =>
-          match hget h1 l with
-          | Some (OArr items) =>
-            iter_list (combine (map (fun i => VInt (Z.of_nat i)) (seq 0 (length items))) items)
-          | _ => Unmod
-          end
-        | VMap l =>
-          match hget h1 l with
-          | Some (OMap items order) =>
-            match order with
-            | [] => iter_list (map (fun k => (VGoStr k, member_lookup items k)) (sort_bytes (keys items)))
-            | _ =>
-              (* ordered map: no else branch even when nothing is iterated *)
-              exec_iter f s2 decl body
-                (map (fun k => (VGoStr k, member_lookup items k))
-                     (filter (fun k => mem k (keys items)) order))
-            end
-          | _ => Unmod
-          end
-        | VNil | VInvalid => exec_nodes f dot s2 el
-        | VBool b | VGoBool b =>
-          if b then exec_while f dot s2 (decl, cmds) body while_cap v else Ok s2
-        | VAttrs _ | VMod _ => Unmod
-        | _ => Panic
+      | NRange p body el =>
+        do pl <- range_plan dot s p;
+        match pl with
+        | RElse s2 => exec_nodes f dot s2 el
+        | RIter s2 pairs => exec_iter f s2 (fst p) body pairs
+        | RWhile s2 v => exec_while f dot s2 p body while_cap v
+        | RDone s2 => Ok s2
         end
       | NTemplate name is_var arg =>
-        let c := cur s in
-        let target : res (option bytes) :=
-          if is_var then
-            match var_val (f_vars c) name with
-            | VStr t | VGoStr t => Ok (Some t)
-            | VNil | VInvalid => Ok None
-            | _ => Unmod
-            end
-          else Ok (Some name) in
-        do tn <- target;
-        match tn with
+        do tp <- template_plan defs dot s name is_var arg;
+        match tp with
         | None => Ok s
-        | Some tname =>
-          match lookup_def defs tname with
-          | None => Ok s
-          | Some body =>
-            do x <- (match arg with
-                     | Some p => eval_pipeline (env_of s dot) (x_heap s) p
-                     | None => Ok (VInvalid, x_heap s)
-                     end);
-            let '(newdot, h1) := x in
-            let s1 := set_heap s h1 in
-            let s1' := match arg with
-                       | Some p => set_vars s1 (set_decl (f_vars (cur s1)) (fst p) newdot)
-                       | None => s1 end in
-            let c1 := cur s1' in
-            let '(callee, s2) :=
-              match find_last_bound (f_bound c1) tname 0 with
-              | Some (pos, fr) =>
-                let scope := nth fr (x_frames s1') c1 in
-                (* the bound entry is spliced out of the executing frame's list *)
-                (scope, set_cur s1' {| f_vars := f_vars c1; f_globals := f_globals c1;
-                                       f_bound := remove_nth (f_bound c1) pos |})
-              | None =>
-                ({| f_vars := f_globals c1; f_globals := f_globals c1; f_bound := f_bound c1 |}, s1')
-              end in
-            let s3 := {| x_frames := x_frames s2 ++ [callee]; x_heap := x_heap s2; x_out := x_out s2 |} in
-            do s4 <- exec_nodes f newdot s3 body;
-            Ok {| x_frames := removelast (x_frames s4); x_heap := x_heap s4; x_out := x_out s4 |}
-          end
+        | Some (body, newdot, s3) =>
+          do s4 <- exec_nodes f newdot s3 body;
+          Ok {| x_frames := removelast (x_frames s4); x_heap := x_heap s4; x_out := x_out s4 |}
         end
       end
     end
@@ -616,7 +647,7 @@ Definition init_state (data : dval) : option xstate :=
         let globals := flat_map (fun k => let x := member_lookup items k in [(k, x); (lower_first k, x)]) ks in
         let '(gl, h2) := alloc h1 (OMap [] []) in
         let globals' := globals ++ [(B "global", VMap gl)] in
-        Some {| x_frames := [{| f_vars := globals'; f_globals := globals'; f_bound := [] |}];
+        Some {| x_frames := [{| f_vars := globals'; f_globals := globals'; f_bound := []; f_depth := 0 |}];
                 x_heap := h2; x_out := [] |}
       | _ => None
       end
